@@ -70,6 +70,17 @@ func (p *pp) startUnsafeOverride() restorer {
 	return restorer{p, prevMode, prevOverride}
 }
 
+// literalMode is the output mode for format literals and structural
+// punctuation: safe, unless the printer runs under an Unsafe() wrapper
+// (a nested printer created by SafePrinter.Print/Printf inherits the
+// override of its parent).
+func (p *pp) literalMode() b.OutputMode {
+	if p.override == overrideUnsafe {
+		return b.UnsafeEscaped
+	}
+	return b.SafeEscaped
+}
+
 type restorer struct {
 	p            *pp
 	prevMode     b.OutputMode
